@@ -1,0 +1,14 @@
+//go:build verif
+// +build verif
+
+package sink
+
+import "github.com/logrange/logrange/pkg/syslog"
+
+// VC18SyslogLogger returns the syslog logger of a sink built by NewSink with Type syslog (nil for any other sink)
+func VC18SyslogLogger(s Sink) *syslog.Logger {
+	if ss, ok := s.(*syslogSink); ok {
+		return ss.slog
+	}
+	return nil
+}
